@@ -17,7 +17,7 @@ CASE_LIMIT = 30
 RULE = ("(i) every byte string of length <=3 (thorough <=4) over a 12-symbol JSON/YAML alphabet plus single bytes 0xff, 0x00 and the empty "
         "file, offered as .json and as .yaml, and a list of YAML specials; (ii) every JSON value of depth <=2 over a small atom and key "
         "alphabet offered as the document; (iii) every single node fault (17 junk values, deletion, duplication under a sibling key) of 3 "
-        "valid base documents (thorough: pairs on one base) and cyclic $ref shapes; (iv) every document of the other checks' spaces "
+        "valid base documents (thorough: pairs on one base) (30 junk values incl. enums of floats/booleans/lists, inf/nan defaults, references urlparse refuses; 4 bases) and cyclic $ref shapes; (iv) every document of the other checks' spaces "
         "(generate only); seam: the real typer CLI via CliRunner for (i)-(iii); oracle: no escaping exception, termination, exit "
         "status <=> error-level diagnostics (and --fail-on-warning), no output when the document is rejected")
 FLOOR = 0.3
